@@ -29,13 +29,16 @@ CONSTANTS LabelIds, Vals, MaxRows, MaxChunks, KernelSet, MaskKinds, Reps, SortCh
           FirstChunkGE,        \* deviation: cum_length >= start
           PointerNoOffset,     \* deviation: piece i merged through pointer table i (first_chunk_in ignored)
           MergeNoCount,        \* deviation: merge without the accumulated count
-          PosAsSet             \* deviation (what the code does): positional mask on chunked keys -> boolean set
+          PosAsSet,            \* deviation (what the code does): positional mask on chunked keys -> boolean set
+          MaxCalls,            \* calls on one grouping object (1: a single call; 2: representation changes in between)
+          UnifyWrapsNull       \* deviation D6: unification maps the null code through p[-1] (the chunk's last pointer entry)
 
 VARIABLES kernel, keys, vals, klens, rep, mask,      \* the call (constant after Init)
           pc, ldict, lcodes, labels, ptr,            \* the grouping
           first, pieces,                             \* mask resolution
-          partial, todo, combined, nmerged, oob      \* reduction
-hvars == <<kernel, keys, vals, klens, rep, mask>>
+          partial, todo, combined, nmerged, oob,     \* reduction
+          calls                                      \* completed calls on this object
+hvars == <<kernel, keys, vals, klens, rep, mask, calls>>
 gvars == <<ldict, lcodes, labels, ptr>>
 vars == <<hvars, gvars, pc, first, pieces, partial, todo, combined, nmerged, oob>>
 
@@ -171,7 +174,6 @@ MergePiece ==
   /\ pc' = IF nmerged' = Len(pieces) THEN "done" ELSE "merge"
   /\ UNCHANGED <<hvars, gvars, first, pieces, partial, todo, oob>>
 
-Next == Factorize \/ Resolve \/ (\E i \in 1..MaxChunks : ChunkReduce(i)) \/ MergePiece
 
 -----------------------------------------------------------------------------
 (* ---- inputs (model checking) ------------------------------------------- *)
@@ -187,6 +189,40 @@ MasksOf(n) ==
   \cup (IF "slice" \in MaskKinds THEN {[k |-> "slice", s |-> <<a, b, None>>] : a \in Bounds(n), b \in Bounds(n)} ELSE {})
   \cup (IF "pos" \in MaskKinds /\ PosAsSet THEN {[k |-> "pos", p |-> p] : p \in UNION {SeqsOver(-n..(n - 1), m) : m \in 0..2}} ELSE {})
 
+-----------------------------------------------------------------------------
+(* ---- the object is reused: _unify_group_key_chunks between calls (C13 with data) ------------------------------- *)
+(* keep_chunked = TRUE  (groups / apply / median): chunk-local codes are mapped through the pointer tables to global *)
+(*                      codes, the chunks stay, the pointer tables are dropped (rep "global")                         *)
+(* keep_chunked = FALSE (transform, cumulative, rolling, head/tail/nth, ema): one contiguous array of global codes   *)
+GlobalCode(c, r) == LET k == lcodes[c][r] IN
+  IF k >= 0 THEN ptr[c][k + 1] - 1
+  ELSE IF UnifyWrapsNull /\ rep = "pointers" /\ Len(ptr[c]) > 0 THEN ptr[c][Len(ptr[c])] - 1 ELSE -1
+RECURSIVE CatCodes(_)
+CatCodes(c) == IF c > Len(klens) THEN <<>> ELSE [r \in 1..klens[c] |-> GlobalCode(c, r)] \o CatCodes(c + 1)
+Unify(keep) ==
+  /\ pc = "done" /\ calls < MaxCalls
+  /\ IF keep
+     THEN /\ lcodes' = [c \in 1..Len(klens) |-> [r \in 1..klens[c] |-> GlobalCode(c, r)]]
+          /\ ptr' = [c \in 1..Len(klens) |-> [g \in 1..Len(labels) |-> g]]
+          /\ ldict' = [c \in 1..Len(klens) |-> labels]
+          /\ UNCHANGED klens
+     ELSE /\ lcodes' = <<CatCodes(1)>>
+          /\ ptr' = <<[g \in 1..Len(labels) |-> g]>>
+          /\ ldict' = <<labels>>
+          /\ klens' = <<N>>
+  /\ rep' = "global"
+  /\ partial' = [i \in 1..Len(pieces) |-> <<>>]          \* (the partial arrays of the finished call are gone)
+  /\ UNCHANGED <<kernel, keys, vals, mask, calls, labels, pc, first, pieces, todo, combined, nmerged, oob>>
+(* the next call on the same object: another reduction, another mask *)
+NextCall ==
+  /\ pc = "done" /\ calls < MaxCalls
+  /\ kernel' \in KernelSet /\ mask' \in MasksOf(N)
+  /\ calls' = calls + 1
+  /\ pc' = "resolve"
+  /\ UNCHANGED <<keys, vals, klens, rep, gvars, first, pieces, partial, todo, combined, nmerged, oob>>
+
+Next == Factorize \/ Resolve \/ (\E i \in 1..MaxChunks : ChunkReduce(i)) \/ MergePiece \/ (\E keep \in BOOLEAN : Unify(keep)) \/ NextCall
+
 Init0 ==
   /\ kernel \in KernelSet
   /\ \E n \in 1..MaxRows :
@@ -198,6 +234,7 @@ Init0 ==
   /\ pc = "start"
   /\ ldict = <<>> /\ lcodes = <<>> /\ labels = <<>> /\ ptr = <<>>
   /\ first = 0 /\ pieces = <<>> /\ partial = <<>> /\ todo = {} /\ combined = <<>> /\ nmerged = 0 /\ oob = FALSE
+  /\ calls = 1
 Spec == Init0 /\ [][Next]_vars
 
 -----------------------------------------------------------------------------
@@ -221,5 +258,10 @@ PartialIsPieceDef == \A i \in 1..Len(pieces) : (i \notin todo /\ pc \in {"reduce
 (* the pieces are exactly the selected rows, in order (Arrow's slice = the slice) *)
 PiecesAreSlice == (pc \in {"reduce", "merge", "done"} /\ mask.k = "slice") =>
   Cat([i \in 1..Len(pieces) |-> [r \in 1..(pieces[i].hi - pieces[i].lo + 1) |-> pieces[i].lo + r - 2]], 1) = SelRows
+(* C13: whatever the representation, the rows' logical codes are the same: code of row r names the label keys[r] *)
+LogicalCodesIntact == pc # "start" =>
+  \A c \in 1..Len(klens) : \A r \in 1..klens[c] :
+     LET k == lcodes[c][r] IN
+     IF keys[Off(c) + r] = Null THEN k = -1 ELSE (k >= 0 /\ k < Len(ptr[c]) /\ labels[ptr[c][k + 1]] = keys[Off(c) + r])
 LabelsAreKeys == pc # "start" => {labels[g] : g \in 1..Len(labels)} = {keys[i] : i \in 1..N} \ {Null}
 =============================================================================
